@@ -237,6 +237,59 @@ def run_verus(repo_src, tag, rlimit=None, threads=16):
         for f in m.get("function-breakdown", []):
             res.fn_success.setdefault(f["function"], []).append(bool(f["success"]))
             res.fn_time_us[f["function"]] = res.fn_time_us.get(f["function"], 0) + f.get("time-micros", 0)
+    # ---- heuristic incompleteness is not a verdict: a function that failed is re-tried on its own
+    # with other solver seeds; ANY successful run is a proof of that function.
+    failed = sorted(n for n, ok in res.fn_success.items() if not all(ok))
+    res.retries = {}
+    if failed and not vr.get("encountered-vir-error") and len(failed) <= 12:
+        keep = []
+        known_all, _ = load_known()
+
+        def all_known(name):
+            ds = [d for d in res.diags if d["fn"] is not None and fn_verus_name(d["fn"]) == name]
+            if not ds:
+                return False
+            for d in ds:
+                ob = ("%s|%s|%s :: %s :: %s" % (d["fn"]["file"], d["fn"]["container"], d["fn"]["name"], d["msg"], d["clause"])).replace(" ", "")
+                if not any(k.get("obligation") and k["obligation"] in ob for k in known_all):
+                    return False
+            return True
+        for name in failed:
+            if all_known(name):
+                continue
+            short = name.split("::", 1)[1] if name.startswith("toodee_v::") else name
+            if "::" in short and short.split("::")[0] in ("lemmas_rows", "lemmas_grid", "prelude"):
+                mod, fn = short.split("::", 1)
+                sel = ["--verify-module", mod, "--verify-function", fn]
+            else:
+                sel = ["--verify-root", "--verify-function", short]
+            ok = False
+            for seed in (1, 7, 13):
+                c2 = ["verus", "toodee_v.rs", "--num-threads", "4", "--output-json", "--time", "--error-format=json",
+                      "--rlimit", "300", "--smt-option", "smt.random_seed=%d" % seed] + sel
+                p2 = sh(c2, cwd=work)
+                try:
+                    j2 = json.loads(p2.stdout)
+                except Exception:
+                    continue
+                succ = []
+                for m in j2.get("times-ms", {}).get("smt", {}).get("smt-run-module-times", []):
+                    for f in m.get("function-breakdown", []):
+                        if f["function"] == name:
+                            succ.append(bool(f["success"]))
+                if succ and all(succ) and not j2.get("verification-results", {}).get("encountered-vir-error"):
+                    ok = True
+                    res.retries[name] = "verified on retry with smt.random_seed=%d" % seed
+                    break
+            if ok:
+                res.fn_success[name] = [True] * len(res.fn_success[name])
+                keep.append(name)
+        if keep:
+            # drop the diagnostics that belong to functions proved on retry
+            def owner(d):
+                return fn_verus_name(d["fn"]) if d["fn"] is not None else None
+            res.diags = [d for d in res.diags if owner(d) not in keep]
+            res.total_errors = max(0, res.total_errors - len(keep))
     if vr.get("encountered-vir-error") or (res.compile_errors and not res.fn_success):
         res.status = "undecided"
         ce = res.compile_errors[0] if res.compile_errors else {"msg": "vir error", "rendered": p.stderr[-800:]}
@@ -516,7 +569,8 @@ def main():
                 "a function's obligations count as discharged only if Verus verified the function from its current /repo body",
         "functions_under_contract": functions,
         "framework_lemmas": {"total": lemma_count, "verified": lemma_ok},
-        "verus": {"verified_items": vr.total_verified, "errors": vr.total_errors, "smt_ms": vr.smt_ms, "wall_s": round(vr.wall_s, 2)},
+        "verus": {"verified_items": vr.total_verified, "errors": vr.total_errors, "smt_ms": vr.smt_ms, "wall_s": round(vr.wall_s, 2),
+                  "retries": getattr(vr, "retries", {})},
         "extraction": {"rewrites": rewrites, "template": "contracts/toodee.vt", "repo_src_hash": repo_src_hash(repo_src)},
         "bounded": kani_info,
         "assumed_contracts": assumed_fns,
